@@ -365,7 +365,107 @@ def _registration_task(qt):
     return part
 
 
+# -- (3) histories: validate, copy (unit / category / values changed), validate again -----------------
+
+
+def _copy_task(task):
+    """The verdict of a copy depends only on ITS amounts and ITS category: every object is (optionally)
+    validated first, then copied with the unit, the category and/or the values changed, and the copy
+    is judged by the definition (a verdict cached by the source must not travel)."""
+    qt, kindA = task
+    part = Part()
+    units, lo_b, hi_b = TYPES[qt]
+    du = units[0]
+    for kindB in LIMIT_KINDS:
+        db = worlds.mini("bare")
+        lo_du, hi_du = lo_b, hi_b
+        limits = {}
+        for cname, kind in (("lim", kindA), ("lim2", kindB)):
+            _n, l, h, lx, hx = kind
+            lo = lo_du if l else None
+            hi = hi_du if h else None
+            db.AddCategory(cname, qt, default_unit=du, default_value=(lo_b + hi_b) / 2, min_value=lo, max_value=hi, is_min_exclusive=lx, is_max_exclusive=hx)
+            limits[cname] = (lo, hi, lx, hx)
+        with worlds.installed(db):
+            model = Model(db)
+            part.count("copy_configurations")
+            for u in (units[0], units[1]):
+                P = [p for p in probes(db, model, qt, u, du, lo_du, hi_du) if p[0] in ("below", "inside", "above", "nan", "exactly at max")]
+                names = [n for n, _x in P]
+                xs = [x for _n, x in P]
+                u2 = units[1] if u == units[0] else units[0]
+
+                def truth_of(vals, unit, cat, flat=True):
+                    lo, hi, lx, hx = limits[cat]
+                    if lo is None and hi is None:
+                        return True, []
+                    am = [db.Convert(qt, unit, du, float(v)) for v in vals]
+                    return all(math.isnan(a) or satisfies(a, lo, hi, lx, hx) for a in am), [a for a in am if not math.isnan(a)]
+
+                for L in range(0, 3):
+                    for seq in itertools.product(range(len(xs)), repeat=L):
+                        vals = [xs[i] for i in seq]
+                        other_vals = [xs[(i + 1) % len(xs)] for i in seq]
+                        for cont in ("list", "tuple", "ndarray"):
+                            mk = (lambda v: list(v)) if cont == "list" else (lambda v: tuple(v)) if cont == "tuple" else (lambda v: np.array(v, dtype=float))
+                            for classes in (("Array",) if L < 2 else ("Array", "FixedArray")):
+                                for prevalidate in (False, True):
+                                    for cname, copier in (
+                                        ("CreateCopy()", lambda o: (o.CreateCopy(), vals, u, "lim")),
+                                        ("CreateCopy(unit=u2)", lambda o: (o.CreateCopy(unit=u2), [db.Convert(qt, u, u2, v) for v in vals], u2, "lim")),
+                                        ("CreateCopy(unit=u, category=lim2)", lambda o: (o.CreateCopy(unit=u, category="lim2"), vals, u, "lim2")),
+                                        ("CreateCopy(unit=u2, category=lim2)", lambda o: (o.CreateCopy(unit=u2, category="lim2"), [db.Convert(qt, u, u2, v) for v in vals], u2, "lim2")),
+                                        ("CreateCopy(values=other)", lambda o: (o.CreateCopy(values=mk(other_vals)), other_vals, u, "lim")),
+                                        ("CreateCopy(values=other, unit=u, category=lim2)", lambda o: (o.CreateCopy(values=mk(other_vals), unit=u, category="lim2"), other_vals, u, "lim2")),
+                                    ):
+                                        part.count("evaluations")
+                                        src = Array("lim", mk(vals), u) if classes == "Array" else FixedArray(L, "lim", mk(vals), u)
+                                        if prevalidate:
+                                            src.IsValid()
+                                        sig = "C12:copy:%s:%s -> %s:%s[%s] %s in %s:%s%s" % (qt, kindA[0], kindB[0], classes, cont, [names[i] for i in seq], u, cname, " after IsValid()" if prevalidate else "")
+                                        try:
+                                            cp, cvals, cunit, ccat = copier(src)
+                                        except Exception as e:
+                                            part.violation(sig + ":copy raised", {"error": repr(e)})
+                                            continue
+                                        truth, considered = truth_of(cvals, cunit, ccat)
+                                        lo, hi, lx, hx = limits[ccat]
+                                        sn = None
+                                        if cp.GetCategory() != ccat or cp.GetUnit() != cunit:
+                                            part.violation(sig + ":copy carries another unit/category", {"copy": repr(cp), "category": cp.GetCategory()})
+                                            continue
+                                        _validate_object(part, sig, sn, cp, truth, considered, lo, hi, lx, hx)
+                                        # and the source still has ITS verdict
+                                        t0, c0 = truth_of(vals, u, "lim")
+                                        l0 = limits["lim"]
+                                        _validate_object(part, sig + ":source afterwards", sn, src, t0, c0, *l0)
+                                        if prevalidate and truth != t0:
+                                            part.count("nontrivial")
+                                        part.add("outcomes", ("copy", cname, truth))
+                # Scalars and FractionScalars
+                for n, x in P:
+                    for prevalidate in (False, True):
+                        for cls in (Scalar, FractionScalar):
+                            if cls is FractionScalar and not math.isfinite(x):
+                                continue
+                            for cname, unit2, cat2 in (("CreateCopy(unit=u2)", u2, "lim"), ("CreateCopy(unit=u, category=lim2)", u, "lim2"), ("CreateCopy(unit=u2, category=lim2)", u2, "lim2")):
+                                part.count("evaluations")
+                                src = cls("lim", x, u)
+                                if prevalidate:
+                                    src.IsValid()
+                                cp = src.CreateCopy(unit=unit2, category=cat2) if cat2 == "lim2" else src.CreateCopy(unit=unit2)
+                                a = db.Convert(qt, u, du, x) if unit2 == u else db.Convert(qt, unit2, du, db.Convert(qt, u, unit2, x))
+                                lo, hi, lx, hx = limits[cat2]
+                                truth = True if (lo is None and hi is None) else ((not math.isnan(a)) and satisfies(a, lo, hi, lx, hx))
+                                if n.startswith("exactly") and unit2 != u:
+                                    continue  # a second conversion may leave the exact boundary by rounding
+                                _validate_object(part, "C12:copy:%s:%s -> %s:%s %s in %s:%s%s" % (qt, kindA[0], kindB[0], cls.__name__, n, u, cname, " after IsValid()" if prevalidate else ""), None, cp, truth, [a], lo, hi, lx, hx)
+    return part
+
+
 def _task(task):
+    if task[0] == "copy":
+        return _copy_task(task[1])
     if task[0] == "validate":
         return _validation_task(task[1])
     return _registration_task(task[1])
@@ -378,6 +478,8 @@ def run(ctx):
         for du in units:
             tasks.append(("validate", (qt, du, maxlen)))
         tasks.append(("register", qt))
+        for kindA in LIMIT_KINDS:
+            tasks.append(("copy", (qt, kindA)))
     run_sharded(ctx, _task, tasks)
     c = ctx.part.counters
     if c.get("exact_boundary_probes", 0) < 20:
@@ -388,9 +490,9 @@ def run(ctx):
     ctx.rule = (
         "complete product: 2 quantity types (one affine) x every default unit x 9 limit configurations x every unit x probe alphabet (below/just below/exactly at/just inside/inside/... /NaN/+-inf) for Scalar, FractionScalar, "
         "CheckValueForCategory, validator; every sequence of length 0..%d over the alphabet for Array/FixedArray x list/tuple/ndarray; lists of tuples; registration: 9 limit kinds x default unit x 11-15 valid-unit sets x 6 default values x direct/from_category. "
-        "non-trivial = exact-boundary Scalar probes + mixed arrays of length >= 2 + accepted registrations (distinct)" % maxlen
+        "histories validate? ; copy ; validate over all 9 x 9 ordered pairs of limit configurations of two categories x 6 CreateCopy variants (unit / category / values changed) x arrays of length 0..2 x containers x Array/FixedArray, and Scalar/FractionScalar copies; non-trivial = exact-boundary Scalar probes + mixed arrays of length >= 2 + accepted registrations (distinct)" % maxlen
     )
-    ctx.coverage_extra = {k: c.get(k, 0) for k in ("configurations", "exact_boundary_probes", "registrations_accepted", "registrations_rejected")}
+    ctx.coverage_extra = {k: c.get(k, 0) for k in ("configurations", "exact_boundary_probes", "registrations_accepted", "registrations_rejected", "copy_configurations")}
     ctx.assumptions = [
         "the oracle converts with db.Convert (judged by C01) and applies the property's definition; exact-boundary probes are used only where the conversion is exact as floats and as rationals, other probes differ from a limit by >= 1e-7 relative",
         "an explicitly passed default_unit outside explicitly passed valid_units is accepted by design (comment in AddCategory) and not judged",
